@@ -3,3 +3,4 @@ import Ops.Codec
 import Ops.Transforms
 import Ops.Quant
 import Ops.CornerTable
+import Ops.Metadata
